@@ -388,6 +388,8 @@ class Exec:
                 return ("map", ("bv", self.bound + 1), args[0])  # [i for i in range(..)]
         if f == ("sym", "int") and len(args) == 1 and is_const(args[0]) and type(args[0][1]) is int:
             return args[0]
+        if f == ("sym", "divmod") and len(args) == 2 and not kwargs:
+            return ("tuple", (self.binop("//", args[0], args[1]), self.binop("%", args[0], args[1])))
         if f in (("sym", "all"), ("sym", "any")) and len(args) == 1 and args[0][0] in ("gen", "list", "tuple") and not kwargs:
             op = "and" if f[1] == "all" else "or"
             items = [x for x in args[0][1] if x != (TRUE if op == "and" else FALSE)]
@@ -531,6 +533,12 @@ class Exec:
             return k(env)
         s, rest = stmts[0], stmts[1:]
         cont = lambda e: self.block(rest, e, k)
+        if isinstance(s, ast.Expr) and isinstance(s.value, ast.Yield):
+            # a generator's yield is an effect: `do yield(value)`; watchers see it under the name "yield"
+            v = NONE if s.value.value is None else self.ev(s.value.value, env)
+            if "yield" in self.watch:
+                self.watch["yield"].append((tuple(self.known), (v,), ()))
+            return ("do", ("call", ("sym", "yield"), (v,), ()), cont(env))
         if isinstance(s, ast.Expr):
             if isinstance(s.value, ast.Constant):
                 return cont(env)
